@@ -339,6 +339,36 @@ def gen_c18(tier, rng):
                 if o.startswith("dec d feed") and frame_ep(o.split(" ")[3]) == e:
                     ops.append(o.replace("dec d feed", "dec q%d feed" % i))
         cases.append(Case("c18", ops, nontrivial=len(eps) > 1, tags=("proj%d" % len(eps),), meta={"nfull": len(full), "eps": eps}))
+    # directed: while endpoint A is in the middle of a reassembly, buffers that belong to NO endpoint (null, short, TECMP, TECMP
+    # runts of every length 8..27 whose bytes spell A's ids) and frames of other endpoints (incl. colliding ids) arrive; A's
+    # message must still complete exactly as on its own decoder
+    for fam in COLLIDING + [[(1, 1), (2, 2)]]:
+        a = fam[0]
+        others = fam[1:] or [(9, 9)]
+        body = [proto.rand_bytes(rng, 20) for _ in range(3)]
+        segs = [frame_header(1, a[0], 1, a[1], 100 + k) + message(5, 6, sg, 0x05, body[k]) for k, sg in enumerate((0x04, 0x08, 0x0C))]
+        intr = [("null", "dec d null"), ("short", feed(b"\x01\x02\x03")), ("tecmp", feed(TECMP_SAMPLE))]
+        for n in range(8, 28):
+            b = bytearray(proto.rand_bytes(rng, n))
+            b[0] = 0
+            b[2:4] = be(a[0], 2)
+            b[5] = a[1]
+            intr.append(("runt%d" % n, feed(bytes(b))))
+        for o in others:
+            intr.append(("other", feed(frame_header(1, o[0], 1, o[1], 7) + message(1, 2, 0, 0x05, b"\x01\x02"))))
+            intr.append(("other-seg", feed(frame_header(1, o[0], 1, o[1], 8) + message(1, 2, 0x08, 0x05, b"\x03\x04"))))
+            intr.append(("other-hdr", feed(frame_header(1, o[0], 1, o[1], 9))))
+        for tag, op in intr:
+            for where in (1, 2):
+                full = [feed(f) for f in segs]
+                full.insert(where, op)
+                eps = sorted({frame_ep(o.split(" ")[3]) for o in full if o.startswith("dec d feed")} - {None})
+                ops = list(full)
+                for i, e in enumerate(eps):
+                    for o in full:
+                        if o.startswith("dec d feed") and frame_ep(o.split(" ")[3]) == e:
+                            ops.append(o.replace("dec d feed", "dec q%d feed" % i))
+                cases.append(Case("c18d", ops, nontrivial=True, tags=("directed", tag.rstrip("0123456789")), meta={"nfull": len(full), "eps": eps}))
     return cases
 
 
@@ -466,7 +496,80 @@ def gen_c06(tier, rng):
         ops.append("dec d pending")
         cases.append(Case("c06", ops, nontrivial=nfr > 1, tags=tuple(tags), meta={"items": items, "nfr": nfr}))
     cases += gen_c06_multicall(tier, rng)
+    cases += gen_c06_interleaved(tier, rng)
     return cases
+
+
+def gen_c06_interleaved(tier, rng):
+    """two endpoints whose ids coincide under plausible wrong key packings, both sending segmented messages; the frames of the
+    first stream suffer faults, those of the second arrive complete and in order, interleaved with the first"""
+    cases = []
+    for ci in range(120 if tier == "quick" else 1500):
+        fam = rng.choice(COLLIDING)
+        (d1, s1), (d2, s2) = rng.sample(fam, 2)
+        mx = rng.choice([30, 40, 64])
+        cap = mx - 8
+        ops = []
+        nfr = []
+        for e, (d, s_) in (("e1", (d1, s1)), ("e2", (d2, s2))):
+            ops += ["enc %s dev %d" % (e, d), "enc %s stream %d" % (e, s_)]
+            ln = rng.choice([2 * (cap - 16), 2 * (cap - 16) + 1, 3 * (cap - 16), 4 * (cap - 16) - 1])
+            p = gen_enc.gpkt(ln, rng.randrange(251), ty=0x0104, ts=rng.getrandbits(40), ifid=rng.getrandbits(32), flags=rng.getrandbits(8) & 0xB3, ver=3)
+            ops.append(gen_enc.pline(p, "p" + e))
+            ops.append("enc %s encode 0 %d p%s" % (e, mx, e))
+            nfr.append(-(-ln // (cap - 16)))
+        ops.append("dec c1 feedsel e1 " + " ".join(str(i) for i in range(nfr[0])))
+        ops.append("dec c2 feedsel e2 " + " ".join(str(i) for i in range(nfr[1])))
+        # stream 1 with faults
+        seq1 = []
+        for i in range(nfr[0]):
+            r = rng.random()
+            if r < 0.2:
+                continue
+            if r < 0.3:
+                seq1 += [str(i), str(i)]
+            elif r < 0.4:
+                seq1.append("%d:v%d" % (i, 4 + i))
+            else:
+                seq1.append(str(i))
+        seq2 = [str(i) for i in range(nfr[1])]
+        # random interleaving that keeps each stream's order
+        merged = []
+        a, b = list(seq1), list(seq2)
+        while a or b:
+            if a and (not b or rng.random() < 0.5):
+                merged.append(("e1", a.pop(0)))
+            else:
+                merged.append(("e2", b.pop(0)))
+        for e, it in merged:
+            ops.append("dec d feedsel %s %s" % (e, it))
+        ops.append("dec d pending")
+        cases.append(Case("c06i", ops, nontrivial=True, tags=("interleaved-colliding-endpoints",), meta={"items": [it for _e, it in merged], "interleaved": True, "noshrink": True}))
+    return cases
+
+
+def pred_c06_interleaved(case, impl):
+    if any(l.startswith("CRASH") for l in impl) or len(impl) < len(case.ops):
+        return False
+    good = {}
+    got = {"e1": [], "e2": []}
+    for o, l in zip(case.ops, impl):
+        w = o.split(" ")
+        if w[0] == "dec" and w[2] == "feedsel" and w[1] in ("c1", "c2"):
+            pk = []
+            for x in (l[4:].split("|") if l.startswith("sel ") else []):
+                pk += packets_of(x.strip()) or []
+            good[w[3]] = pk
+        elif w[0] == "dec" and w[1] == "d" and w[2] == "feedsel":
+            for x in (l[4:].split("|") if l.startswith("sel ") else []):
+                got[w[3]] += packets_of(x.strip()) or []
+    allgood = set(good.get("e1", [])) | set(good.get("e2", []))
+    # nothing but packets that were sent; the uninterrupted stream is delivered completely, on its own frames
+    if any(p not in allgood for e in got for p in got[e]):
+        return False
+    if got["e2"] != good.get("e2"):
+        return False
+    return all(p in good.get("e1", []) for p in got["e1"])
 
 
 def gen_c06_multicall(tier, rng):
@@ -529,6 +632,8 @@ def gen_c06_multicall(tier, rng):
 def pred_c06(case, impl, model, ctx):
     """implementation only: every delivered packet is one the clean run delivered; every message whose
     frames arrived as a clean contiguous run was delivered at the end of that run"""
+    if case.meta.get("interleaved"):
+        return pred_c06_interleaved(case, impl)
     if any(l.startswith("CRASH") for l in impl):
         return False
     clean_line = [l for o, l in zip(case.ops, impl) if o.startswith("dec c feedsel")][0]
@@ -659,6 +764,18 @@ def gen_c04(tier, rng):
             tags.add("every-truncation")
         ops.append("dec d pending")
         cases.append(Case("c04", ops, nontrivial=nm > 0, tags=tuple(sorted(tags))))
+    # structured payloads whose inner blocks end exactly at / one byte before / past the payload end (all prefixes, consistent length)
+    cases += prefix_closure_cases(tier, rng, "c04p")
+    # a message whose 16-bit length field is near its maximum, in frames cut short inside that message (a 16-bit `16 + length`
+    # wraps): exactly the completely contained messages may come out
+    ops = []
+    first = message(1, 2, 0, 0x01, proto.can_payload(b"\x11" * 8))
+    for ln in (65535, 65534, 65528, 65521, 65520, 65519, 40000):
+        big = message(3, 4, 0, 0x08, proto.eth_payload(b"", data_len=0) + bytes(ln - 6), length=ln)
+        fr = frame_header(1, 2, 1, 3, 9) + first + big
+        for keep in (0, 1, 15, 16, 17, 22, 100, 1500, ln + 15, ln + 16):
+            ops.append(feed(fr[:8 + len(first) + keep]))
+    cases.append(Case("c04big", ops, nontrivial=True, tags=("length-field-near-max", "truncated"), meta={"noshrink": True}))
     return cases
 
 
@@ -782,6 +899,40 @@ def structure_view(case, lines):
     return out
 
 
+def structured_payloads(rng):
+    """well-formed typed payloads whose inner length fields sit at their interesting values: odd / even id counts, empty and
+    odd-length strings, empty and non-empty vendor data, data length 0 / 1 / typical"""
+    out = []
+    for ids in (0, 1, 2, 3, 7):
+        for vend in (0, 1, 3):
+            out.append(("if", proto.TY["if"], proto.if_payload(bytes(range(1, ids + 1)), proto.rand_bytes(rng, vend), if_id=rng.getrandbits(32), status=rng.randrange(3))))
+    for strs in ((b"", b"", b"", b""), (b"a", b"bc", b"def", b"g"), (b"dev", b"", b"hw1", b"sw22"), (b"abcd", b"12345", b"", b"x")):
+        for vend in (0, 1, 4):
+            out.append(("cm", proto.TY["cm"], proto.cm_payload(*strs, vendor=proto.rand_bytes(rng, vend))))
+    for n in (0, 1, 8):
+        out.append(("can", proto.TY["can"], proto.can_payload(proto.rand_bytes(rng, n))))
+        out.append(("canfd", proto.TY["canfd"], proto.can_payload(proto.rand_bytes(rng, n), fd=True)))
+        out.append(("lin", proto.TY["lin"], proto.lin_payload(proto.rand_bytes(rng, n))))
+        out.append(("eth", proto.TY["eth"], proto.eth_payload(proto.rand_bytes(rng, n * 8))))
+        out.append(("analog", proto.TY["analog"], proto.analog_payload(proto.rand_bytes(rng, 2 * n))))
+    return out
+
+
+def prefix_closure_cases(tier, rng, name):
+    """every PREFIX of structured payloads, re-declared with the cut length (so the message itself is consistent and only the
+    payload's inner structure runs past its end), as the last message of an exactly sized buffer and in front of another message"""
+    cases = []
+    tail = message(9, 9, 0, 0x05, b"\xEE" * 5)
+    for kind, ty, body in structured_payloads(rng):
+        ops = []
+        for cut in range(0, len(body) + 1):
+            for post in ((b"",) if tier == "quick" and cut % 2 else (b"", tail)):
+                ops.append(feed(frame_header(1, 2, ty >> 8, 3, 4) + message(5, 6, 0, ty & 0xFF, body[:cut]) + post))
+        ops.append("dec d reprint")
+        cases.append(Case(name, ops, nontrivial=True, tags=("prefix-closure", kind)))
+    return cases
+
+
 def gen_c02(tier, rng):
     cases = []
     # well-formed frames of every kind truncated at every offset, fields corrupted
@@ -837,6 +988,7 @@ def gen_c02(tier, rng):
                 ops.append(feed(fr))
         ops.append("dec d reprint")
         cases.append(Case("c02s", ops, nontrivial=True, tags=("short-last-message",)))
+    cases += prefix_closure_cases(tier, rng, "c02p")
     # a reassembly that grows beyond 65551 bytes (vector reallocation while the header of the first segment is referenced)
     ops = []
     for k in range(47):
